@@ -38,7 +38,7 @@ func main() {
 		Rule: "case = one history of 6 polling ticks; before each tick 0..4 successful key generations are recorded through the repository's InsertBatchConfig/InsertEon/InsertEonPublicKey queries (one or several keyper sets, restarts of the same set, any order), both publication modes (gossip broadcast with signature check, callback), all three table scan orders of the in-memory Postgres; " +
 			"oracle: multiset of publications == multiset of recorded key generations (eon, key bytes, activation block, keyper-set index). distinct = (mode, scan order, per-tick counts, set layout); non-trivial = some tick had >=2 pending keys",
 		Assumptions: []string{
-			"family e2e (idx%250==7): the key generations are real — three honest keypers are driven through the real shuttermint observer on their own databases over two keyper sets (in two thirds of the runs one keyper is left out of the second set), the polling step runs on every keyper's database every 1..4 rounds, and each keyper's publications must equal its successful dkg_result rows; in a third of the e2e runs two of four keypers are played by the harness and vote "failed" right after eon 1 was finalized (shuttermint restarts a key generation the honest keypers recorded as successful); in half of the e2e runs nothing is polled until the end (everything completes within one polling interval); at the end every keyper's handler is started again (new object, real loop, 60 ms) and must hand over nothing twice; the own position in a keyper set varies (0..2) in all families",
+			"family e2e (idx%250==7): the key generations are real — three honest keypers are driven through the real shuttermint observer on their own databases over two keyper sets (in two thirds of the runs one keyper is left out of the second set), the polling step runs on every keyper's database every 1..4 rounds, and each keyper's publications must equal its successful dkg_result rows; in a third of the e2e runs two of four keypers are played by the harness and vote \"failed\" right after eon 1 was finalized (shuttermint restarts a key generation the honest keypers recorded as successful); in half of the e2e runs nothing is polled until the end (everything completes within one polling interval); at the end every keyper's handler is started again (new object, real loop, 60 ms) and must hand over nothing twice; the own position in a keyper set varies (0..2) in all families",
 			"in two thirds of the histories the publication mechanism accepts everything offered (multiset equality asserted); in one third it refuses some eons, and only 'never handed over twice once accepted' is asserted",
 			"only eons of keyper sets the keyper belongs to are recorded (as finalizeDKG does)",
 			"one sixth of the histories record the key generations from a second goroutine while the polling step runs (verdict at quiescence); statement atomicity is pgmem's (each statement executes under the engine lock, as one Postgres statement is atomic)",
